@@ -149,6 +149,27 @@ pub fn battery() -> Vec<Item> {
         it("export-concepts", "EXPORT", r#"EXPORT CAPSULE ?c WHERE { ?c CONCEPT {} }"#, X, Eq),
         it("export-props", "EXPORT", r#"EXPORT CAPSULE ?p WHERE { ?p PROPOSITION (?s, "prefers", ?o) }"#, X, Eq),
         it("export-root-readable", "EXPORT", r#"EXPORT CAPSULE "{Ann}" WHERE { ?x CONCEPT {id: "{Ann}"} }"#, X, Eq),
+        // FOR TIME restricts by an Assertion's `valid_time` (A1: 2020..2090, A2: 2010..2095):
+        // before both, inside A2 only, inside both, at A1's exclusive end, after A1, after both
+        it("for-time-before", "FOR_TIME", r#"FIND(?a.id) WHERE { ?a ASSERTION {} } FOR TIME "2005-06-01T00:00:00Z""#, R, Eq),
+        it("for-time-early", "FOR_TIME", r#"FIND(?a.id) WHERE { ?a ASSERTION {} } FOR TIME "2015-06-01T00:00:00Z""#, R, Eq),
+        it("for-time-inside", "FOR_TIME", r#"FIND(?a.id, ?a.stance) WHERE { ?a ASSERTION {} } FOR TIME "2050-06-01T00:00:00Z""#, R, Eq),
+        it("for-time-at-until", "FOR_TIME", r#"FIND(?a.id) WHERE { ?a ASSERTION {} } FOR TIME "2090-01-01T00:00:00Z""#, R, Eq),
+        it("for-time-late", "FOR_TIME", r#"FIND(?a.id) WHERE { ?a ASSERTION {} } FOR TIME "2092-06-01T00:00:00Z""#, R, Eq),
+        it("for-time-after", "FOR_TIME", r#"FIND(COUNT(?a)) WHERE { ?a ASSERTION {} } FOR TIME "2099-06-01T00:00:00Z""#, R, Eq),
+        it("for-time-join", "FOR_TIME", r#"FIND(?p.id, ?a.id) WHERE { ?p PROPOSITION (?s, "prefers", ?o) ?a ASSERTION {} FILTER(?a.proposition_id == ?p.id) } FOR TIME "2005-06-01T00:00:00Z""#, R, Eq),
+        it("for-time-as-of", "FOR_TIME_AS_OF", r#"FIND(?a.id) WHERE { ?a ASSERTION {} } AS OF SEQ {seq_end} FOR TIME "2005-06-01T00:00:00Z""#, RH, Eq),
+        it("for-time-page", "FOR_TIME_PAGING", r#"FIND(?a.id) WHERE { ?a ASSERTION {} } FOR TIME "2015-06-01T00:00:00Z" LIMIT 1"#, R, Eq),
+        it("window-projection", "PATTERN", r#"FIND(?a.id, ?a.valid_time) WHERE { ?a ASSERTION {} }"#, R, Eq),
+        it("filter-window", "FILTER", r#"FIND(?a.id) WHERE { ?a ASSERTION {} FILTER(?a.valid_time.from < "2015-01-01T00:00:00Z") }"#, R, Eq),
+        it("order-window", "ORDER_BY", r#"FIND(?a.id) WHERE { ?a ASSERTION {} } ORDER BY ?a.valid_time.from ASC"#, R, Eq),
+        it("order-window-page", "PAGING", r#"FIND(?a.id) WHERE { ?a ASSERTION {} } ORDER BY ?a.valid_time.until DESC LIMIT 1"#, R, Eq),
+        it("as-of-filter-rank", "AS_OF", r#"FIND(?c.id) WHERE { ?c CONCEPT {} FILTER(?c.attributes.rank > 1) } AS OF SEQ {seq_end}"#, RH, Eq),
+        it("as-of-order-rank", "AS_OF", r#"FIND(?c.id) WHERE { ?c CONCEPT {} } AS OF SEQ {seq_end} ORDER BY ?c.attributes.rank ASC LIMIT 2"#, RH, Eq),
+        // (every population element is written under the idempotency key `pop:<key>`; the by-key lookup is
+        // the sibling of DESCRIBE TRANSACTION in meta/history.rs and shares its family)
+        it("describe-tx-by-key-readable", "DESCRIBE_TRANSACTION_BY_KEY", r#"DESCRIBE TRANSACTION BY IDEMPOTENCY KEY "pop:Ann""#, H, Eq),
+        it("describe-tx-by-key-hidden", "DESCRIBE_TRANSACTION_BY_KEY", r#"DESCRIBE TRANSACTION BY IDEMPOTENCY KEY "pop:Cat""#, H, Eq),
         it("export-root-hidden", "EXPORT", r#"EXPORT CAPSULE "{Cat}" WHERE { ?x CONCEPT {id: "{Ann}"} }"#, X, Eq),
     ];
     for (label, probe) in [
@@ -354,6 +375,10 @@ pub fn taint_tokens(readable: &[bool], masked: &[bool]) -> Vec<(usize, String)> 
             // masked fields of a readable element: its name and note token
             out.push((i, format!("\"{}\"", el.key)));
             out.push((i, format!("u{}", el.key.to_lowercase())));
+        } else if masked[i] && let Some((from, until)) = el.window() {
+            // ... and the bounds of a masked validity window
+            out.push((i, from.to_string()));
+            out.push((i, until.to_string()));
         }
     }
     out
